@@ -30,12 +30,12 @@ def reps(lo, hi):
 
 
 def run(prog, chk):
-    fanout_tables(prog, chk)
-    config_request_histories(prog, chk)
+    chk.defer(fanout_tables, prog, chk)
+    chk.defer(config_request_histories, prog, chk)
     from ksirules import recycle
     chk.rule("C15.recycle", "a recycled HA request object starts with a zero response count and cleared flags", floor=6)
     recycle.check(prog, chk, "C15.recycle", ["KSI_HighAvailabilityRequest_new"])
-    _run(prog, chk)
+    chk.defer(_run, prog, chk)
 
 
 def _run(prog, chk):
